@@ -595,6 +595,77 @@ def run(repo, chk):
                    "finite evaluation of ControlCondition._sec_to_clock composed with ControlCondition._parse_value",
                    expected=hb[0][0] if hb else None, found=("%r reads back as %s" % (hb[0][1], hb[0][2])) if hb else None)
     chk.floor("R-C12-8", 16 + 24)
+    # ---------------------------------------------------------------- R-C12-9 the writer converts with the units it announces
+    wfn = repo.func(IO, "InpFile.write")
+    wopt = repo.func(IO, "InpFile._write_options")
+    chk.fn(wfn, wopt)
+    announces = [c for c in calls(wopt) if "'QUALITY'" in unparse(c) and "inpfile_units" in unparse(c)]
+    if not announces:
+        raise ExtractError("_write_options: QUALITY line with the mass units not found")
+    # names that carry options.quality.inpfile_units inside write()
+    carriers = {"wn.options.quality.inpfile_units"}
+    for a in walk(wfn):
+        if isinstance(a, ast.Assign) and isinstance(a.targets[0], ast.Name) and "options.quality.inpfile_units" in unparse(a.value):
+            carriers.add(a.targets[0].id)
+    mu = [a for a in walk(wfn) if isinstance(a, ast.Assign) and unparse(a.targets[0]) == "self.mass_units"]
+    from_opt = [a for a in mu if any(c in unparse(a.value) for c in carriers)]
+    # ... and that assignment is not conditional on self.mass_units being unset (a reader that ran before must not win over the option)
+    def guarded_by_unset(a):
+        q = a
+        while q is not None and q is not wfn:
+            pq = getattr(q, "_parent", None)
+            if isinstance(pq, ast.If) and q in pq.body and "self.mass_units is None" in unparse(pq.test):
+                return True
+            q = pq
+        return False
+    chk.expect(bool(from_opt) and not all(guarded_by_unset(a) for a in from_opt), "R-C12-9",
+               "the mass unit the writer converts concentrations with is taken from options.quality.inpfile_units, which the QUALITY line announces", loc(wfn),
+               "the [OPTIONS] QUALITY line prints options.quality.inpfile_units while the conversions use self.mass_units: if the two have different sources a ug/L model is "
+               "written with mg/L numbers and read back 1000 times too small", expected="self.mass_units = f(wn.options.quality.inpfile_units)", found=[norm(a) for a in mu])
+    fu_src = [a for a in walk(wfn) if isinstance(a, ast.Assign) and unparse(a.targets[0]) == "self.flow_units"]
+    chk.expect(any("options.hydraulic.inpfile_units" in unparse(a.value) or any(isinstance(x, ast.Name) and x.id == "units" for x in ast.walk(a.value)) for a in fu_src), "R-C12-9",
+               "the flow unit system the writer converts with comes from the `units` argument / options.hydraulic.inpfile_units", loc(wfn))
+    uo = [c for c in calls(wopt) if "'UNITS'" in unparse(c)]
+    chk.expect(bool(uo) and "self.flow_units.name" in unparse(uo[0]), "R-C12-9", "the UNITS line announces the flow unit system the writer converts with", loc(wopt), found=[norm(c) for c in uo])
+
+    # ---------------------------------------------------------------- R-C12-10 every demand entry's category is written
+    wdm = repo.func(IO, "InpFile._write_demands")
+    chk.fn(wdm)
+    gd = [n for n in walk(wdm) if isinstance(n, ast.If) and "len(demands)" in unparse(n.test)]
+    if not gd:
+        raise ExtractError("_write_demands: guard on the number of demands not found")
+    from ..peval import Evaluator as _Ev, Obj as _Obj, Unknown as _Unk
+
+    class _E(_Ev):
+        def e_Subscript(self, n):
+            return self.ev(n.value)[self.ev(n.slice)]
+
+    def _hk(name, n, ev):
+        if name == "len":
+            return len(ev.ev(n.args[0]))
+        return NotImplemented
+    for ndem, cat in ((1, None), (1, "fire"), (2, None), (2, "fire")):
+        demands = [_Obj("d%d" % i, {"category": cat if i == 0 else None, "base_value": 1.0, "pattern_name": None}) for i in range(ndem)]
+        try:
+            e = _E({"demands": demands}, None, _hk)
+            written = bool(e.truth(e.ev(gd[0].test)))
+        except _Unk as ex:
+            raise ExtractError("_write_demands guard not evaluable: %s" % ex)
+        must = ndem > 1 or cat is not None
+        chk.expect(written or not must, "R-C12-10", "a junction with %d demand(s), first category %r, gets its [DEMANDS] lines" % (ndem, cat), loc(wdm, gd[0]),
+                   "the [JUNCTIONS] line has no place for a demand category: a junction whose only demand has a category must be written to [DEMANDS] or the category is lost",
+                   expected="written", found="skipped by `%s`" % unparse(gd[0].test))
+
+    # ---------------------------------------------------------------- R-C12-11 rule conditions: grouping of AND / OR
+    acc = repo.func(IO, "_EpanetRule.add_control_condition")
+    chk.fn(acc)
+    rec = [n for n in walk(acc) if isinstance(n, ast.If) and "OrCondition" in unparse(n.test) or (isinstance(n, ast.If) and "AndCondition" in unparse(n.test))]
+    handles_mixed = any(isinstance(n, (ast.Raise,)) for n in walk(acc)) and "AndCondition" in unparse(acc) and "OrCondition" in unparse(acc) and \
+        any(isinstance(n, ast.Call) and unparse(n.func) == "isinstance" and "_condition_" in unparse(n.args[0]) for n in walk(acc))
+    chk.expect(handles_mixed, "R-C12-11", "the rule writer keeps the grouping of nested AND / OR conditions (or refuses what the flat rule grammar cannot express)", loc(acc),
+               "add_control_condition flattens the condition tree into IF/AND/OR clauses in visiting order; the reader groups them as an AND of OR-groups, so "
+               "`a or (b and c)` and `(a and b) or c` come back as different conditions", expected="normalisation to an AND of OR-groups, or a refusal", found="children are emitted in order without looking at their type")
+
     # START CLOCKTIME: the 12-hour writer composed with _clock_time_to_sec is the identity on every hour of the day
     from ._shared import clocktime_round_trip
     rows, wtf, rdf = clocktime_round_trip(repo)
@@ -608,6 +679,9 @@ def run(repo, chk):
 
 
 WITNESSES = [
+    dict(name="mass-units-only-from-previous-read", file=IO, old="        if isinstance(quality_units, str) and quality_units.split('/')[0] in ('mg', 'ug'):\n            self.mass_units = MassUnits[quality_units.split('/')[0]]\n        elif self.mass_units is None:",
+         new="        if self.mass_units is None:", rule="R-C12-9"),
+    dict(name="single-demand-category-dropped", file=IO, old="            if len(demands) > 1 or (len(demands) == 1 and demands[0].category):", new="            if len(demands) > 1:", rule="R-C12-10"),
     dict(name="control-time-as-decimal-hours", file=IO, old="'time': '{:d}:{:02d}:{:02d}'.format(*_sec_to_string(all_control._condition._threshold))}", new="'time': '{:g}'.format(all_control._condition._threshold / 3600.0)}", rule="R-C12-8"),
     dict(name="rule-clock-12am-not-mapped", file="wntr/network/controls.py", old="            if len(words) > 1 and words[1] in ('AM', 'PM') and hours == 12:\n                hours = 0", new="            if False:\n                hours = 0", rule="R-C12-8"),
     dict(name="noon-hour-written-as-am", file=IO, old="        if hrs < 12:\n            time_format = ' AM'\n        else:\n            hrs -= 12\n            time_format = ' PM'",
